@@ -99,7 +99,7 @@ Proof.
   assert (HokH : forall t, hHandshake h = Some t -> hist_ok (tHist t)).
   { intros t Ht. apply (HA 1%nat). cbn. now rewrite Ht. }
   assert (HokA : hist_ok (tHist (aTr (hApp h)))) by (apply (HA 2%nat); reflexivity).
-  destruct o as [pn ecn lvl t ae | p | lvl | lvl now only | pn lvl | |]; cbn [step].
+  destruct o as [pn ecn lvl t ae | p | lvl | lvl now only | pn lvl | | | lvl n]; cbn [step].
   - (* Recv *)
     unfold h_recv.
     assert (Happ : forall low, is_app lvl = true ->
@@ -175,6 +175,15 @@ Proof.
   - cbn [fst snd owes1]. repeat split; auto.
   - cbn [fst snd owes1]. repeat split; auto.
   - cbn [fst snd owes1]. repeat split; auto.
+  - (* Trunc: history and hasNewAck untouched *)
+    cbn [fst snd owes1]. unfold h_trunc.
+    destruct (lvl =? rph_EncInitial); [| destruct (lvl =? rph_EncHandshake); [| destruct (lvl =? rph_Enc1RTT)]];
+      cbn [hInitial hHandshake hApp aTr]; repeat split; auto;
+      try (intros t0 Ht0; destruct (hInitial h) as [t1 |] eqn:Hi; [| discriminate]; inversion Ht0; subst;
+           unfold tr_nonempty, tr_trunc; cbn [tHasNewAck tHist]; now apply HI);
+      try (intros t0 Ht0; destruct (hHandshake h) as [t1 |] eqn:Hi; [| discriminate]; inversion Ht0; subst;
+           unfold tr_nonempty, tr_trunc; cbn [tHasNewAck tHist]; now apply HH);
+      try (intros Ho; unfold tr_nonempty, tr_trunc; cbn [tHasNewAck tHist]; now apply HP).
 Qed.
 
 Lemma invN_run : forall ops, invN (trace newHandler ops) (fst (run newHandler ops)).
